@@ -216,4 +216,11 @@ theorem fact_identity_from_connection :
     Facts.identityWhoisArgs = ["r.Context()", "r.RemoteAddr"] := by
   decide
 
+/-! ### T1: functions the model transcribes, statement by statement (white space collapsed) -/
+
+def expected_Server_getIdentity : List String := ["addrPort, err := netip.ParseAddrPort(r.RemoteAddr)", "if err != nil { return db.Caller{}, fmt.Errorf(\"parsing RemoteAddr %q: %w\", r.RemoteAddr, err) }", "who, err := s.whois(r.Context(), r.RemoteAddr)", "if err != nil { return db.Caller{}, fmt.Errorf(\"calling WhoIs: %w\", err) }", "if who.Node.IsTagged() { id.Principal.Tags = who.Node.Tags } else if who.UserProfile.LoginName != \"\" { id.Principal.User = who.UserProfile.LoginName } else { return db.Caller{}, errors.New(\"failed to find caller identity\") }", "id.Principal.IP = addrPort.Addr()", "id.Principal.Hostname = who.Node.Name", "id.Permissions, err = tailcfg.UnmarshalCapJSON[acl.Rule](who.CapMap, ACLCap)", "if err == nil && len(id.Permissions) == 0 { id.Permissions, err = tailcfg.UnmarshalCapJSON[acl.Rule](who.CapMap, aclCapHTTP) }", "if err != nil { return db.Caller{}, fmt.Errorf(\"unmarshaling peer capabilities: %w\", err) }", "return id, nil"]
+
+/-- getIdentity: the peer address parsed and handed to WhoIs; tagged node or login name; IP and host name from the connection and the node; the rules under the current capability name, under the legacy one only if that gave none -/
+theorem fact_Server_getIdentity_as_transcribed : Facts.body_Server_getIdentity = expected_Server_getIdentity := by rfl
+
 end Setec.C08
